@@ -227,7 +227,14 @@ func main() {
 	r.pts = points(base, schema)
 	res.Bounds["definition_keys_by_reflection"] = len(keys)
 	res.Bounds["mutation_points_in_base_document"] = len(r.pts)
-	res.Bounds["mutation_kinds"] = append(append([]string{}, plainKinds...), leafKinds...)
+	res.Bounds["mutation_kinds"] = append(append(append([]string{}, plainKinds...), leafKinds...), listKinds...)
+	nlists := 0
+	for _, p := range r.pts {
+		if nodeAt(base, p.path).k == nList {
+			nlists++
+		}
+	}
+	res.Bounds["list_nodes_in_base_document"] = nlists
 	var lids []string
 	for _, l := range leaves {
 		lids = append(lids, l.id+"="+l.s)
@@ -253,7 +260,7 @@ func main() {
 	r.member("base", "base", func() []byte { return []byte(base.yaml()) })
 
 	for pi := range r.pts {
-		for _, mu := range mutationsOf(pi, leaves) {
+		for _, mu := range mutationsOf(base, r.pts, pi, leaves) {
 			mu := mu
 			r.member("single", className(r.pts, mu), func() []byte { return []byte(mutate(base, r.pts, mu)) }, mu)
 		}
@@ -269,7 +276,7 @@ func main() {
 	// quick: a core subset of kinds with the leaf "x"; thorough: every kind x the whole leaf pool
 	pairMuts := func(pt int) []mutation {
 		if fl.Thorough() {
-			return mutationsOf(pt, leaves)
+			return mutationsOf(base, r.pts, pt, leaves)
 		}
 		return []mutation{{pt, "delete", ""}, {pt, "null", ""}, {pt, "int", ""}, {pt, "empty-list", ""}, {pt, "string", "x"},
 			{pt, "list-of-maps", "x"}, {pt, "map-unknown-key", "x"}, {pt, "map-nonstring-key", "x"}}
